@@ -14,7 +14,7 @@ def main():
         'real process / file-system behaviour is exercised only for sampled paths and counterexamples (real binary, real files)',
     ]
     ok = c.setup()
-    rc, out = native.run(['cargo', 'build', '--offline', '--quiet', '--manifest-path', '/repo/Cargo.toml', '--target-dir', os.path.join(native.BUILD, 'cli')])
+    rc, out = native.run(['cargo', 'build', '--offline', '--quiet', '--manifest-path', os.path.join(native.REPO, 'Cargo.toml'), '--target-dir', os.path.join(native.BUILD, 'cli' + native.alt_suffix())])
     if rc != 0:
         print('INFRASTRUCTURE-FAILURE property=C12 building the CLI failed: %s' % out[-500:]); c.write_evidence(infra_error='cli build'); sys.exit(2)
     if ok:
